@@ -150,7 +150,10 @@ def suggest_case(p):
     s1, s2 = suggest_cable_shift_double_ended(ds, irange, plot_result=False)
     fails = []
     if p.get("expect_planted", True) and (s1, s2) != (-p["i"], -p["i"]):
-        fails.append(f"planted misalignment {p['i']}: suggested {(s1, s2)}, expected {(-p['i'], -p['i'])}")
+        # F23 (known finding) is ONLY the case in which the second-derivative suggestion is right and the first-derivative suggestion is wrong
+        # although it is the true minimiser of its objective (decided inside Coq below): the objective err1 itself has its minimum off the alignment
+        tagf = "DEFER-F23:" if (s2 == -p["i"] and s1 != -p["i"]) else ""
+        fails.append(f"{tagf}planted misalignment {p['i']}: suggested {(s1, s2)}, expected {(-p['i'], -p['i'])}")
     IF = np.log(ds["st"].values / ds["ast"].values)
     IB = np.log(ds["rst"].values / ds["rast"].values)
     (zIF, zIB), _ = scale_ints(IF, IB)
@@ -200,13 +203,23 @@ def run_family(ctx, name, cases, fn, shard=250):
         except Exception as ex:  # the implementation refused an input inside the quantified space
             e, fails = None, [f"implementation raised {type(ex).__name__}: {ex}"]
         ctx.case((name, tuple(sorted(p.items()))), nontrivial=p.get("i", 1) != 0 or name != "shift", sample=p)
+        deferred = [f[len("DEFER-F23:"):] for f in fails if f.startswith("DEFER-F23:")]
         for f in fails:
-            ctx.violation(f"{name}:{f.split(':')[0][:60]}", f, p)
+            if not f.startswith("DEFER-F23:"):
+                ctx.violation(f"{name}:{f.split(':')[0][:60]}", f, p)
         if e is not None:
             exprs.append(e)
-            meta.append(p)
+            meta.append((p, deferred))
+        else:
+            for f in deferred:
+                ctx.violation(f"{name}:{f.split(':')[0][:60]}", f, p)
     codes = core.run_cases(ctx, name, PRELUDE, exprs, shard=shard)
-    for c, p in zip(codes, meta):
+    for c, (p, deferred) in zip(codes, meta):
+        for f in deferred:
+            if c == 0:   # the implementation returned the exact minimiser of err1 (checked against Model/Shift.v): the objective is minimal off the alignment
+                ctx.violation("F23-err1-objective-minimum-off-alignment", f + " - err1 (summed |first difference| of the attenuation) is genuinely smaller there", p)
+            else:
+                ctx.violation(f"{name}:{f.split(':')[0][:60]}", f, p)
         if c is None:
             continue
         if c != 0:
